@@ -68,31 +68,31 @@ CHECKS = {
     ),
     "C11": (
         "model_checking",
-        "Every objective message of the C01 representation alphabet over 3 binary variables (~10^5 messages: repeated ids inside monomials, x^2, cancelling terms, split constants, explicit zeros, lower/upper triangle) and deterministic all-monomial families for n=4..12, degree<=4: the PUBO dictionary and the QUBO matrix+offset are evaluated on ALL 2^n assignments in exact arithmetic against the objective; keys canonical (i<=j, strictly increasing sets), no stored zero coefficient, no duplicate key. Every refusal condition on every base: active constraint, maximise, each used variable made integer / continuous, >2 distinct variables (QUBO); a removed constraint alone must not refuse.",
+        "Every objective message of the C01 representation alphabet over 3 binary variables (~10^5 messages: repeated ids inside monomials, x^2, cancelling terms, split constants, explicit zeros, lower/upper triangle) and deterministic all-monomial families for n=4..12, degree<=4: the PUBO dictionary and the QUBO matrix+offset are evaluated on ALL 2^n assignments in exact arithmetic against the objective; keys canonical (i<=j, strictly increasing sets), no stored zero coefficient, no duplicate key. Every refusal condition on every base: active constraint, maximise, each used variable made integer / continuous, >2 distinct variables (QUBO); a removed constraint alone, a defined non-binary variable (each kind) that the objective does not use, and such a variable mentioned only by a removed constraint must not refuse.",
         "Refusal is not asserted for terms whose coefficient is exactly zero (property leaves it open). Sense unspecified is outside the alphabet.",
         "bounded exhaustive enumeration of objectives x all binary assignments on the real code vs exact evaluation",
     ),
     "C12": (
         "model_checking",
-        "log_encode on every integer range: every width 0..=4096 x 8 lower ends (-2^20 .. 2^20-w) x fractional offsets {0,.25,.5,.75,1-5e-7} on both ends, the value set over ALL 2^n bit patterns computed as the subset-sum set of the returned integer coefficients and required to be exactly ceil(l)..floor(u) (for widths <= 64 additionally the SDK's own evaluate on every pattern); every width 1..2^21 at three lower ends through the complete-sequence criterion (necessary and sufficient for positive integers; cross-validated against brute force on all widths <= 4096). Registration of the new binaries (fresh ids under two list layouts that make last-element and list-length id schemes collide, kind binary, bound [0,1], tagged with the encoded id), single-integer range => constant; a second call on the same variable (same or changed bound) must again use fresh ids and cover the new range. Every error condition: unknown id, each non-integer kind, absent bound, no integer in bound, NaN bounds, and the infinite bounds in an rlimit'd (1 GiB) subprocess with a 10 s watchdog, where abort/kill/timeout is the violating outcome; failed calls must leave the instance unchanged.",
+        "log_encode on every integer range: every width 0..=4096 x 8 lower ends (-2^20 .. 2^20-w) x fractional offsets {0,.25,.5,.75,1-5e-7} on both ends, the value set over ALL 2^n bit patterns computed as the subset-sum set of the returned integer coefficients and required to be exactly ceil(l)..floor(u) (for widths <= 64 additionally the SDK's own evaluate on every pattern); every width 1..2^21 at three lower ends through the complete-sequence criterion (necessary and sufficient for positive integers; cross-validated against brute force on all widths <= 4096). Registration of the new binaries (fresh ids under two list layouts that make last-element and list-length id schemes collide, kind binary, bound [0,1], tagged with the encoded id), single-integer range => constant; a second call on the same variable (same or changed bound) must again use fresh ids and cover the new range; widths 0..=129 and every error condition are repeated after a real partial_evaluate fixed the encoded variable (either end / middle of the range) or another variable. Every error condition: unknown id, each non-integer kind, absent bound, no integer in bound, NaN bounds, and the infinite bounds in an rlimit'd (1 GiB) subprocess with a 10 s watchdog, where abort/kill/timeout is the violating outcome; failed calls must leave the instance unchanged.",
         "Trusted: subset-sum DP over exact integer coefficients equals enumeration of bit patterns. Subprocess isolation via fork/exec of the harness binary with RLIMIT_AS.",
         "exhaustive enumeration of integer ranges x all bit patterns on the real code; fault enumeration of error conditions incl. subprocess-isolated non-termination",
     ),
     "C13": (
         "model_checking",
-        "Every inequality f(x)<=0 with f = up to 2 (quick) / 3 (thorough) distinct monomials of degree<=2 + constant, coefficients {+-1,+-2,3,+-1/2,1/3,-2/3,3/4}, constants {-3,-1,-1/2,0,1/2,2}, over 1..3 integer/binary variables, every assignment of 5 boxes to the variables, Linear/Quadratic/Polynomial and unnormalised (split-term) representations, another constraint present, a second conversion in the same instance on a sub-grid, two variable-list layouts; convert_inequality_to_equality_with_integer_slack x max_integer_range {1,3,100} and add_integer_slack_to_inequality x slack_upper_bound {1,2,5}. Oracle: brute force over EVERY lattice point of the box and EVERY slack value in the new variable's bounds: feasible set in x unchanged; slack integer, fresh id, bound [0,S], same constraint id, b reported = slack coefficient; moved-to-removed => constraint unchanged and satisfied everywhere; InfeasibleDetected => no clearly feasible lattice point; for linear f the determined outcomes are asserted in the converse direction too; rejections (unknown id, equality, continuous or semi-continuous variable, range above limit) leave the instance unchanged.",
-        "Feasibility at lattice points uses the 1e-6 rule on values that are multiples of 1/12 (far from the tolerance). add_integer_slack's exact-zero threshold with non-dyadic coefficients is not asserted at the boundary (counted as boundary_cases_not_asserted). slack_upper_bound=0 and unbounded variables are outside the alphabet.",
+        "Every inequality f(x)<=0 with f = up to 2 (quick) / 3 (thorough) distinct monomials of degree<=2 + constant, coefficients {+-1,+-2,3,+-1/2,1/3,-2/3,3/4}, constants {-3,-1,-1/2,0,1/2,2}, over 1..3 integer/binary variables, every assignment of 5 boxes to the variables, Linear/Quadratic/Polynomial and unnormalised representations (a term listed twice in both id orders; the constant split over two degree-0 monomials), another constraint present, a second conversion in the same instance on a sub-grid, two variable-list layouts; convert_inequality_to_equality_with_integer_slack x max_integer_range {1,3,100} and add_integer_slack_to_inequality x slack_upper_bound {1,2,5}. Oracle: brute force over EVERY lattice point of the box and EVERY slack value in the new variable's bounds: feasible set in x unchanged; slack integer, fresh id, bound [0,S], same constraint id, b reported = slack coefficient; moved-to-removed => constraint unchanged and satisfied everywhere; InfeasibleDetected => no clearly feasible lattice point; for linear f the determined outcomes are asserted in the converse direction too; rejections (unknown id, equality field = 0 / unspecified / outside the enumeration, continuous or semi-continuous variable, range above limit) leave the instance unchanged.",
+        "Feasibility at lattice points uses the 1e-6 rule on values that are multiples of 1/12 (far from the tolerance). add_integer_slack's exact-zero threshold with non-dyadic coefficients is not asserted at the boundary, nor is b == slack coefficient when b is rounding noise (<= 1e-12) of a non-dyadic unnormalised message (both counted as boundary_cases_not_asserted). slack_upper_bound=0 and unbounded variables are outside the alphabet.",
         "bounded exhaustive enumeration of inequalities x boxes with brute-force lattice/slack oracle on the real code",
     ),
     "C14": (
         "model_checking",
-        "Explicit-state breadth-first search with stateright over the real Instance: from each of 12 initial instances (3 constraint-function sets with 3-4 constraints, 0/1/2/all initially removed; thorough adds a 5-constraint set: 2.0e5 states, 5.9e6 transitions) every action relax(id, reason in {a, empty string}, params in {none,{k:v}}) / restore(id) for every constraint id and the unknown id 99. The instance message is the whole state (dedup key = message bytes + reference model), so every history of any length is covered, not only length <= 8. Every transition is compared with a two-set reference model (op on an id not in the expected list must fail and leave the instance equal to its clone); every reachable state is checked: multiset of (id, function, equality, metadata) over active+removed unchanged, ids partitioned, recorded reasons/parameters, and on all 27 grid states per-constraint values and feasible equal the initial instance's while feasible_relaxed follows the currently active constraints.",
+        "Explicit-state breadth-first search with stateright over the real Instance: from each of 12 initial instances (3 constraint-function sets with 3-4 constraints, 0/1/2/all initially removed; thorough adds a 5-constraint set: 2.0e5 states, 5.9e6 transitions) every action relax(id, reason in {a, empty string}, params in {none,{k:v}}) / relax(id, a reason with leading and trailing whitespace) / restore(id) for every constraint id and the unknown id 99. The instance message is the whole state (dedup key = message bytes + reference model), so every history of any length is covered, not only length <= 8. Every transition is compared with a two-set reference model (op on an id not in the expected list must fail and leave the instance equal to its clone); every reachable state is checked: multiset of (id, function, equality, metadata) over active+removed unchanged, ids partitioned, recorded reasons/parameters, and on all 27 grid states per-constraint values and feasible equal the initial instance's while feasible_relaxed follows the currently active constraints.",
         "stateright 0.31 BFS; violations are collected through a side channel so exploration continues and every signature is reported; replay re-executes the recorded history without the explorer.",
         "explicit-state model checking (stateright BFS) of the real code with a reference model in lock-step",
     ),
     "C15": (
         "model_checking",
-        "(a) as_minimization_problem on every objective of the medium representation family x both senses, once and twice: sense, objective == +-f as exact polynomials, every other field untouched, idempotent, identical ranking of all pairs of grid states. (b) every sample set with k<=6 (quick) / k<=7 (thorough; k=8 over two objective values) samples where each sample independently takes one of 3 objective values (so ties occur) and one of 3 feasibility classes (infeasible / feasible for remaining constraints only / feasible for all), produced by the real evaluate_samples, x both senses x {current fields, legacy fields decoded by prost} x {values grouped by state as evaluate_samples writes them, regrouped by value as another writer may}: the returned id is feasible in the requested sense and unbeaten under the set's sense, Err exactly when no sample is feasible; feasible-id sets and the best Solution getters agree.",
+        "(a) as_minimization_problem on every objective of the medium representation family x both senses, once and twice: sense, objective == +-f as exact polynomials, every other field untouched, idempotent, identical ranking of all pairs of grid states. (b) every sample set with k<=6 (quick) / k<=7 (thorough; k=8 over two objective values) samples where each sample independently takes one of 3 objective values (so ties occur) and one of 3 feasibility classes (infeasible / feasible for remaining constraints only / feasible for all), produced by the real evaluate_samples, x both senses x {current fields, legacy fields decoded by prost} x {values grouped by state as evaluate_samples writes them, regrouped by value as another writer may}, for k<=4 also with objective values -inf / +inf and with the relaxed constraint carrying the empty reason (listed so, or after a real relax_constraint(id, \"\")): the returned id is feasible in the requested sense and unbeaten under the set's sense, Err exactly when no sample is feasible; feasible-id sets and the best Solution getters agree.",
         "Legacy = tag 4 holds remaining-constraint feasibility, tag 6 all-constraint feasibility, tag 7 absent. Unspecified sense and unset-oneof objectives are outside the alphabet.",
         "bounded exhaustive enumeration of (objective, sense) and of sample-set feasibility/objective patterns on the real code",
     ),
@@ -110,7 +110,7 @@ CHECKS = {
     ),
     "C17": (
         "model_checking",
-        "Abstract LP/MIP models rendered by the harness's own free-format MPS writer and loaded by the real readers (load_raw_reader, load_zipped_reader, load_file): the FULL PRODUCT of 27 row specs (E/L/G x range none/+2/-2 x rhs none/4/-3) x 40 column specs (integer marker x 20 bound specs: none, UP, negative UP, LO, LO+UP in both orders, LO+negative UP in both orders, FX, MI, PL, FR, BV, LI, UI, MI+UP, MI+negative UP, LI+UI, LO 0+UP 1, UP 1e30) for one row x one column under every layout (3/5-field lines, comment lines, blank lines, wide separators) x 5 sense forms x 5 name styles (foreign / OMMX_-style / mixed for columns and rows, three objective row names) x objective constant x sparsity patterns; the full 27^2 x 40^2 product for two rows x two columns; a fixed 5x6 model under all layouts; no-row models. The expected instance is computed from the abstract model (never by parsing) and compared by name: objective coefficients and constant (-RHS of the file's objective row), sense, one or two constraints per row by the RANGES table, effective domain per column, names / recovered ids. Fault files: undeclared row in COLUMNS / RANGES, unknown row / bound type, bad marker keyword, bad OBJSENSE word, unparsable numbers in every section, at every applicable line of a base file => Err, never a panic.",
+        "Abstract LP/MIP models rendered by the harness's own free-format MPS writer and loaded by the real readers (load_raw_reader, load_zipped_reader, load_file): the FULL PRODUCT of 27 row specs (E/L/G x range none/+2/-2 x rhs none/4/-3) x 50 column specs (integer marker x 25 bound specs: none, UP, negative UP, LO, LO+UP in both orders, LO+negative UP in both orders, FX, MI, PL, FR, BV, LI, UI, MI+UP, MI+negative UP, LI+UI, LO 0+UP 1, UP 1e30, FX 1, LO 1+UP 1, LO -1+UP 1, UP 1, FX 0) for one row x one column under every layout (3/5-field lines, comment lines, blank lines, wide separators) x 5 sense forms x 5 name styles (foreign / OMMX_-style / mixed for columns and rows, three objective row names) x objective constant x sparsity patterns; the full product of row and column specs for two rows x two columns; a fixed 5x6 model under all layouts; no-row models. The expected instance is computed from the abstract model (never by parsing) and compared by name: objective coefficients and constant (-RHS of the file's objective row), sense, one or two constraints per row by the RANGES table, effective domain per column (binary kind only for BV columns or integral columns with bounds exactly [0,1]), names / recovered ids. Fault files: undeclared row in COLUMNS / RANGES, unknown row / bound type, bad marker keyword, bad OBJSENSE word, unparsable numbers in every section, at every applicable line of a base file => Err, never a panic.",
         "Residual un-owned nondeterminism: HashSet/HashMap order inside the parser (cannot change a correct result as compared). Outside the alphabet: UP 0 without LO, RANGES 0, second N row, RHS on an undeclared row.",
         "bounded exhaustive enumeration of abstract models x layouts rendered by an independent writer, loaded by the real parser; fault enumeration for the error alphabet",
     ),
